@@ -19,7 +19,7 @@ Definition names (w : world) : list string := map fst w.
 
 (* ---------- exact in-memory loader (harness command `files`) ---------- *)
 
-Inductive fault : Type := NoFault | FailFind (k : nat) | FailRead (k : nat).
+Inductive fault : Type := NoFault | FailFind (k : nat) | FailRead (k : nat) | FailMany (finds reads : list nat).
 
 Definition count_found (w : world) (hist : list string) : nat :=
   List.length (filter (fun u => mem u (names w)) hist).
@@ -30,6 +30,9 @@ Definition mem_oracle (w : world) (f : fault) (hist : list string) (u : string) 
   | FailFind k => if Nat.eqb (List.length hist) k then AFail
                   else if mem u (names w) then AFound u true else AMissing
   | FailRead k => if mem u (names w) then AFound u (negb (Nat.eqb (count_found w hist) k)) else AMissing
+  | FailMany finds reads =>
+      if existsb (Nat.eqb (List.length hist)) finds then AFail
+      else if mem u (names w) then AFound u (negb (existsb (Nat.eqb (count_found w hist)) reads)) else AMissing
   | NoFault => if mem u (names w) then AFound u true else AMissing
   end.
 
